@@ -60,16 +60,31 @@ func partition(line, delim string) (string, string) {
 
 }
 
+// readLine reads the next line, including its line terminator if there is
+// one. A last line that is not terminated by a newline is returned like any
+// other line; io.EOF is only returned once there is no more data at all.
+func readLine(reader *bufio.Reader) (string, error) {
+	line, err := reader.ReadString('\n')
+	if err == io.EOF && line != "" {
+		return line, nil
+	}
+	return line, err
+}
+
+// ParseOne reads the next entry off the reader. io.EOF is only returned if
+// the input ends before an entry has started (only blank lines were left);
+// if the input ends in the middle of an entry, io.ErrUnexpectedEOF is
+// returned instead.
 func ParseOne(reader *bufio.Reader) (*ChangelogEntry, error) {
 	changeLog := ChangelogEntry{}
 
 	var header string
 	for {
-		line, err := reader.ReadString('\n')
+		line, err := readLine(reader)
 		if err != nil {
 			return nil, err
 		}
-		if line == "\n" {
+		if trim(line) == "" {
 			continue
 		}
 		if !strings.HasPrefix(line, " ") {
@@ -110,7 +125,10 @@ func ParseOne(reader *bufio.Reader) (*ChangelogEntry, error) {
 	var signoff string
 	/* OK, we've got the header. Let's zip down. */
 	for {
-		line, err := reader.ReadString('\n')
+		line, err := readLine(reader)
+		if err == io.EOF {
+			return nil, io.ErrUnexpectedEOF
+		}
 		if err != nil {
 			return nil, err
 		}
